@@ -1,6 +1,7 @@
 """C04 — two lines never silently occupy the same address."""
 import random
 
+import impl
 import proggen as P
 from core import Verdict
 from props import layout_base as LB
@@ -12,10 +13,21 @@ RULE = ('generated programs placing byte lines via .org (absolute, zone-relative
 EXPLANATION = ('Theorems in Props/C04.lean: on the address-sorted list the adjacent check passes iff the occupying lines are '
                'pairwise disjoint; independent of source order; zero-length lines never matter; the sort is a stable permutation.')
 ASSUMPTIONS = []
-to_model = LB.to_model
+
+
+def to_model(case):
+    if case.get('wide_string'):
+        return {'op': 'ping'}
+    return LB.to_model(case)
 
 
 def to_impl(case):
+    if case.get('wide_string'):
+        return impl.compile_case(P.make_isa(case['cfg']), {'main.asm': case['text']})
+    return _to_impl(case)
+
+
+def _to_impl(case):
     if case.get('nobin'):
         # no binary image requested (-n), only a listing: an overlap is an error whatever outputs are asked for
         import impl
@@ -72,13 +84,44 @@ def gen_huge(rng):
     return {'cfg': cfg, 'files': [stmts], 'start': 0, 'end': None, 'fill': 0, 'seed': rng.randrange(1 << 30), 'huge': where}
 
 
+def gen_wide_string(rng):
+    """a bare embedded string with a character beyond one byte (written as an escape), followed by data: the code rejects such
+    a string (fail closed); were it ever accepted, the bytes it emits must be the bytes it reserved - the statement behind it
+    starts where the string (with its terminator) ends, under either plausible encoding"""
+    esc, low, utf8 = rng.choice([('\\u20ac', [0xAC], [0xE2, 0x82, 0xAC]), ('\\u0100', [0x00], [0xC4, 0x80]),
+                                 ('\\u0416', [0x16], [0xD0, 0x96])])
+    pre, post = rng.choice(['', 'A', 'xy']), rng.choice(['', 'B', 'AB'])
+    term = rng.choice([0, 0, 3])
+    data = [rng.randint(1, 255) for _ in range(rng.randint(1, 4))]
+    text = f'"{pre}{esc}{post}"\n.byte ' + ', '.join(str(d) for d in data) + '\n'
+    ok_images = [bytes([ord(c) for c in pre] + enc + [ord(c) for c in post] + [term] + data) for enc in (low, utf8)]
+    return {'wide_string': True, 'text': text, 'term': term, 'ok_images': [i.hex() for i in ok_images],
+            'cfg': {'bits': 16, 'little': False, 'regs': ['ra', 'rb'], 'preZones': [], 'preConsts': [], 'preData': [],
+                    'allow_embedded_strings': True, 'cstr_terminator': term}}
+
+
 def generate(rng, tier):
     n = 500 if tier == 'quick' else 12000
-    return [gen_case(rng, tier) for _ in range(n)] + [gen_huge(rng) for _ in range(n // 60)]
+    return [gen_case(rng, tier) for _ in range(n)] + [gen_huge(rng) for _ in range(n // 60)] + \
+        [gen_wide_string(rng) for _ in range(n // 60)]
 
 
 def judge(case, ir, mr):
     tags = []
+    if case.get('wide_string'):
+        tags.append('embedded-string-with-a-character-beyond-one-byte')
+        det = f'text={case["text"]!r}'
+        if ir['status'] == 'timeout':
+            return {'verdict': Verdict.VIOLATION, 'detail': 'no termination; ' + det, 'tags': tags}
+        if ir['status'] != 'ok':
+            tags.append('rejected')
+            return {'verdict': Verdict.OK, 'nontrivial': True, 'tags': tags, 'detail': det}
+        actual = impl.fbytes(ir, 'out.bin')
+        if actual.hex() in case['ok_images']:
+            return {'verdict': Verdict.OK, 'nontrivial': True, 'tags': tags + ['accepted-consistently'], 'detail': det}
+        return {'verdict': Verdict.VIOLATION, 'tags': tags,
+                'detail': f'the statement behind the string does not start where the string ends (its bytes and the string\'s share '
+                          f'addresses): image {actual.hex()}, consistent images would be {case["ok_images"]}; ' + det}
     mr, mt = LB.split(mr)
     if case.get('nobin'):
         tags.append('no-binary-run')
